@@ -229,7 +229,7 @@ func (in *instantiator) skolemize(f *sx) *sx {
 				in.newDecl = append(in.newDecl, fmt.Sprintf("(declare-fun %s () %s)", name, b.list[1].String()))
 				m[b.list[0].atom] = name
 				if b.list[1].isAtom() && b.list[1].atom == "Int" {
-					in.cands = append(in.cands, name)
+					in.cands = append(in.cands, name, "(- "+name+" 1)", "(+ "+name+" 1)")
 				}
 			}
 			return in.skolemize(substSx(stripBang(f.list[2]), m))
